@@ -11,7 +11,6 @@
                     over m (ideal signatures: unforgeability, one meaning per byte string). *)
 From Coq Require Import List String Bool NArith ZArith.
 Import ListNotations.
-From VF Require C16.Model.
 From VF Require Import common.Json gen.Gen_C07 C07.Model C07.Proofs C07.ProofsRT C07.StrictModel C07.ProofsStrict C07.ParseModel C07.ProofsParse.
 Open Scope string_scope.
 Open Scope list_scope.
@@ -282,7 +281,7 @@ Print Assumptions verified_document_exact_partial.
 
 (* ---- JWT ENVELOPES AROUND A DOCUMENT WITH AN EMBEDDED PROOF (unsecured JWT, alg none: the embedded proof is the
         only protection).  The registered claims are applied to the claim object FIRST (iss -> holder / issuer id,
-        jti -> id, nbf / iat / exp -> dates: refine_vp here, C16's `refine` for credentials) and the embedded-proof
+        jti -> id, nbf / iat / exp -> dates: refine_vp, refine_vc) and the embedded-proof
         check runs on the result, which is also what the caller gets.  So, under the guard of
         verified_document_exact_partial, an accepted enveloped document IS the signed one and the envelope cannot
         contradict it: a non-empty iss / jti equals the signed holder / id. ---- *)
@@ -307,10 +306,10 @@ Proof.
   split; [exact E|]. unfold without_proof in E. split; intro H.
   - rewrite <- (lookup_remove_key "proof" d0 "holder" eq_refl), <- E, (lookup_remove_key "proof" _ "holder" eq_refl).
     unfold refine_vp. rewrite H. destruct (nonempty jti).
-    + rewrite lookup_set_key_other by reflexivity. apply lookup_set_key_same.
-    + apply lookup_set_key_same.
+    + rewrite lookup_put_other by reflexivity. apply lookup_put_same.
+    + apply lookup_put_same.
   - rewrite <- (lookup_remove_key "proof" d0 "id" eq_refl), <- E, (lookup_remove_key "proof" _ "id" eq_refl).
-    unfold refine_vp. rewrite H. apply lookup_set_key_same.
+    unfold refine_vp. rewrite H. apply lookup_put_same.
 Qed.
 Print Assumptions jwt_envelope_cannot_override_vp.
 
@@ -321,13 +320,13 @@ Theorem jwt_envelope_cannot_override_vc :
     forall (signed_by : N -> msg -> Prop),
     (forall t ty k m, pv_dec t ty = DSig (SBy k m) -> signed_by k m) ->
     (forall s k m, seg_dec s = DSig (SBy k m) -> signed_by k m) ->
-    forall (fmt : Z -> string) (claims : C16.Model.jclaims) p k d0 c,
+    forall (fmt : Z -> string) iss jti nbf iat exp vc p k d0 c,
     (forall m, signed_by k m -> Some m = sign_message canon (fun j => Some j) false excluded_keys d0 c) ->
     key_of resolve p = Some k ->
-    verify_one canon (fun j => Some j) pv_dec seg_dec resolve accepts false excluded_keys (C16.Model.refine fmt claims) p = true ->
-    without_proof (C16.Model.refine fmt claims) = without_proof d0.
+    verify_one canon (fun j => Some j) pv_dec seg_dec resolve accepts false excluded_keys (refine_vc fmt iss jti nbf iat exp vc) p = true ->
+    without_proof (refine_vc fmt iss jti nbf iat exp vc) = without_proof d0.
 Proof.
-  intros canon pv_dec seg_dec resolve accepts Hinj signed_by Hpv Hseg fmt claims p k d0 c Honly Hk Hv.
+  intros canon pv_dec seg_dec resolve accepts Hinj signed_by Hpv Hseg fmt iss jti nbf iat exp vc p k d0 c Honly Hk Hv.
   exact (verified_document_exact_partial canon pv_dec seg_dec resolve accepts Hinj signed_by Hpv Hseg _ p k d0 c Honly Hk Hv).
 Qed.
 Print Assumptions jwt_envelope_cannot_override_vc.
